@@ -19,7 +19,7 @@ TECHNIQUE = ("property-based testing (Hypothesis) with an adversarial stepping w
 RULE = ("case = operation {get, multiget, getnext, multigetnext, set, multiset, bulkget, walk, multiwalk, bulkwalk, table, "
         "bulktable} x clock schedule (start over Integer32, increments from {0, 0.3, 0.999, 1, 1.5, 60} per read) x protocol "
         "{v1, v2c, v3 x 3 levels} x perturbation {none, id+1, id-1, id 0, random id, the previous request's id, other "
-        "community, empty community, other version number, discovery msgID} applied to the k-th response x optional history "
+        "community, empty community, near-miss community (configured one with an extra / changed octet, also >= 0x80), other version number, discovery msgID} applied to the k-th response x optional history "
         "(warm-up exchange under other credentials, then configure) x walks in strict and lenient (errors=warn) mode x optionally the same read operation twice in flight on the client (echo direction); non-trivial = the clock advances by >= 1 s between two "
         "reads inside the operation, or the response id differs from the request id; distinct = SHA-1 of canonical JSON case")
 ASSUMPTIONS = [
@@ -132,6 +132,12 @@ def run_case(case) -> Result:
             comm = via.get("community", "public").encode("ascii") if via and via["v"] != "3" else b"someone-else"
         elif kind == "community_empty":
             comm = b""
+        elif kind == "community_variant":
+            # a byte string that differs from the configured community only slightly
+            c = agent.community
+            comm = {"ff_suffix": c + b"\xff", "80_prefix": b"\x80" + c, "utf8_inside": c[:3] + b"\xc3\xa9" + c[3:],
+                    "upper": c.upper(), "space_suffix": c + b" ", "nul_suffix": c + b"\x00", "shorter": c[:-1],
+                    "doubled": c * 2, "space_prefix": b" " + c, "high_bit": bytes([c[0] | 0x80]) + c[1:]}[pert["how"]]
         elif kind == "version_other":
             ver = 1 - version
         st8["applied"] = True
@@ -267,7 +273,7 @@ def run_case(case) -> Result:
 
     if st8["applied"] and st8["effective"]:
         kind = pert["kind"]
-        if kind in ("community_other", "community_empty", "version_other"):
+        if kind in ("community_other", "community_empty", "community_variant", "version_other"):
             if not isinstance(exc, SnmpError):
                 return bad("a response with a foreign community / version was not refused with SnmpError (got %s)" % (
                     edesc() if exc else repr(res if res is not None else got)))
@@ -325,7 +331,7 @@ def cases(draw):
     op = draw(st.sampled_from(ops))
     kinds = ["none", "none", "none", "id+1", "id-1", "id0", "idrand", "idprev", "id+2^32", "id-2^32", "id+k*2^32"]
     if proto["v"] != "3":
-        kinds += ["community_other", "community_empty", "version_other"]
+        kinds += ["community_other", "community_empty", "community_variant", "community_variant", "version_other"]
     else:
         kinds += ["disco_msgid", "disco_msgid"]
     kind = draw(st.sampled_from(kinds))
@@ -336,6 +342,9 @@ def cases(draw):
         pert["value"] = draw(st.one_of(st.integers(-2 ** 31, 2 ** 31 - 1), st.integers(-2 ** 63, 2 ** 63 - 1)))
     if kind == "id+k*2^32":
         pert["value"] = draw(st.sampled_from([2, 3, -2, 255, 2 ** 20, 2 ** 31]))
+    if kind == "community_variant":
+        pert["how"] = draw(st.sampled_from(["ff_suffix", "80_prefix", "utf8_inside", "upper", "space_suffix", "nul_suffix", "shorter",
+                                            "doubled", "space_prefix", "high_bit"]))
     if kind == "disco_msgid":
         pert["delta"] = draw(st.sampled_from([1, -1, 4711, 2 ** 32, -2 ** 32, 2 ** 33]))
     case = dict(proto=proto, op=op, perturb=pert,
